@@ -289,21 +289,14 @@ class Templates:
                         t = Templates(cb)
                         if t.events:
                             idx[name] = t
-                        elif raws[0]["kind"] == "Closure":
-                            # `opt.map(|x| helper(x, ..))`: the closure only hands on to a helper
-                            inner = []
-                            for _, t2 in cb.calls():
-                                n2 = mir.callee_of(t2)
-                                r2 = [r for r in b.crate["bodies"] if r["key"] == n2] if n2 and n2.startswith("darling_core::") else []
-                                if len(r2) == 1 and r2[0]["kind"] in ("Fn", "AssocFn"):
-                                    cb2 = mir.Body(r2[0], b.crate)
-                                    if not cb2.derived:
-                                        t3 = Templates(cb2)
-                                        if t3.events:
-                                            inner.append((t3, cb, t2))
-                            if len(inner) == 1:
-                                idx[name] = inner[0][0]
-                                idx[("call", name)] = (Templates(cb), inner[0][2])
+                        else:
+                            # a closure / helper fn without template of its own that only hands on:
+                            # `opt.map(|x| helper(x, ..))`, `opt.map_or_else(TokenStream::new, |d| d.decl().into_token_stream())`
+                            fw = self._forwarded(cb, types, 0)
+                            if fw is not None:
+                                idx[name] = fw[0]
+                                if fw[1] is not None:
+                                    idx[("call", name)] = fw[1]
             if idx[name] is None:
                 return None
             found.append(idx[name])
@@ -316,6 +309,45 @@ class Templates:
         if found:
             return found
         return None
+
+    def _forwarded(self, cb, types, depth):
+        """(Templates, (owner Templates, call) | None) of the one place a template-less body takes
+        its tokens from: a crate fn with templates it calls, a closure it builds, or (types=True)
+        the ToTokens impl of a crate type it renders"""
+        b = self.b
+        cands = []
+        for _, t2 in cb.calls():
+            ci2 = mir.callee_info(t2) or {}
+            n2 = ci2.get("resolved") or ci2.get("fn") or ""
+            if n2.startswith("darling_core::") or n2.startswith("<darling_core::"):
+                r2 = [r for r in b.crate["bodies"] if r["key"] == n2]
+                if len(r2) == 1 and r2[0]["kind"] in ("Fn", "AssocFn"):
+                    cb2 = mir.Body(r2[0], b.crate)
+                    if not cb2.derived:
+                        t3 = Templates(cb2)
+                        if t3.events:
+                            cands.append((t3, (Templates(cb), t2)))
+            if types and re.search(r"ToTokens(>)?::(into_token_stream|to_token_stream|to_tokens)$", n2):
+                ty2 = tag(ci2.get("self_ty") or (ci2.get("targs") or [""])[0])
+                if ty2.startswith("darling_core::"):
+                    r3 = [r for r in b.crate["bodies"] if r["key"] == "<%s as quote::to_tokens::ToTokens>::to_tokens" % ty2]
+                    if len(r3) == 1:
+                        t4 = Templates(mir.Body(r3[0], b.crate))
+                        if t4.events:
+                            cands.append((t4, None))
+        for _, _, st in cb.stmts():
+            if st["k"] == "assign" and st["r"]["k"] == "aggregate" and st["r"].get("agg") == "closure":
+                r5 = [r for r in b.crate["bodies"] if r["key"] == st["r"]["closure"]]
+                if len(r5) == 1:
+                    cb5 = mir.Body(r5[0], b.crate)
+                    t5 = Templates(cb5)
+                    if t5.events:
+                        cands.append((t5, None))
+                    elif depth < 2:
+                        fw = self._forwarded(cb5, types, depth + 1)
+                        if fw is not None:
+                            cands.append(fw)
+        return cands[0] if len(cands) == 1 else None
 
     def _argmap(self, tk, depth, follow):
         """param local of the followed helper -> tokens the caller passes for it (when the caller
